@@ -14,7 +14,8 @@ from hypergraph.graph.validation import GraphConfigError  # noqa: E402
 
 FLAWS = ["unknown_target", "unknown_target_multi", "dup_producer", "dup_node", "bad_node_name", "bad_output_name", "bad_graph_name",
          "inconsistent_default", "wait_for_unknown", "edge_unknown_node", "edge_unknown_value", "type_mismatch", "missing_annotation",
-         "gate_self_target", "dup_producer_two_names", "dup_producer_two_gates", "bad_graph_output_name", "dup_output_in_node", "inconsistent_default_fed"]
+         "gate_self_target", "dup_producer_two_names", "dup_producer_two_gates", "bad_graph_output_name", "dup_output_in_node", "inconsistent_default_fed",
+         "bad_graph_node_name"]
 
 
 def typed_chain(rng: random.Random) -> dict:
@@ -195,6 +196,32 @@ def mapped_typed(rng: random.Random) -> tuple[list[dict], list[dict] | None, str
     return mk_prog(good), mk_prog(bad), "type_mismatch_mapping_" + which
 
 
+def tuple_typed(rng: random.Random) -> tuple[list[dict], list[dict] | None, str]:
+    """strict_types around a node with SEVERAL outputs annotated by one tuple: each output takes its element's type; a variable-length
+    `tuple[T, ...]` types every output as `T`."""
+    k = rng.choice([2, 2, 3])
+    elems = [rng.choice(["int", "str", "bool"]) for _ in range(k)]
+    var = rng.random() < 0.5
+    if var:
+        elems = [elems[0]] * k
+        ret = {"g": "tuple", "a": [elems[0], "..."]}
+    else:
+        ret = {"g": "tuple", "a": list(elems)}
+    outs = [f"o{i}" for i in range(k)]
+    pq = {"name": "pq", "kind": "fn", "params": [["s", None]], "dataOuts": outs, "body": {"b": "multi", "t": "pq", "k": k}, "ann": {"s": "int", "return": ret}}
+    j = rng.randrange(k)
+    want = elems[j] if rng.random() < 0.7 else {"u": [elems[j], "float"]}
+    use = {"name": "use", "kind": "fn", "params": [[outs[j], None]], "dataOuts": ["z"], "body": {"b": "tag", "t": "use"}, "ann": {outs[j]: want, "return": "str"}}
+    good = [pq, use]
+    bad = copy.deepcopy(good)
+    other = {"int": "str", "str": "int", "bool": "str"}[elems[j]]
+    bad[1]["ann"][outs[j]] = other
+    rng.shuffle(good)
+    rng.shuffle(bad)
+    mk_prog = lambda ns: [{"name": "g0", "nodes": ns, "bound": [], "strict": True}]   # noqa: E731
+    return mk_prog(good), mk_prog(bad), "type_mismatch_tuple_" + ("variadic" if var else "fixed")
+
+
 def _find(nodes: list[dict], name: str) -> dict | None:
     return next((n for n in nodes if n["name"] == name), None)
 
@@ -323,6 +350,17 @@ def inject(rng: random.Random, program: list[dict], flaw: str, gi: int) -> list[
         n["body"] = {"b": "multi", "t": n["name"], "k": len(n["dataOuts"])}
     elif flaw == "bad_graph_name":
         g["name"] = rng.choice(["a.b", "a/b"])
+    elif flaw == "bad_graph_node_name":
+        # a nested-graph node renamed (with_name) to a name holding a path separator of the hierarchical node ids
+        gns = [n for n in nodes if n["kind"] == "graph"]
+        if not gns:
+            return None
+        gn = rng.choice(gns)
+        new = rng.choice(["a/b", "sub.x", gn["name"] + "/" + gn["name"], "."])
+        for gt in gates:
+            gt["targets"] = [new if t == gn["name"] else t for t in gt["targets"]]
+        gn["name"] = new
+        gn["nameVia"] = "with_name"
     elif flaw == "inconsistent_default":
         # two consumers of one external input: one with a default, one without (or different values)
         cons: dict[str, list] = {}
@@ -451,7 +489,7 @@ class C19(Prop):
         d1 = [e for _, e in tu.type_universe(1)] if tier == "thorough" else None
         i = 0
         # every dedicated family is visited several times per run, whatever the seed
-        forced = [n_way_gate, signal_branches, explicit_typed, mapped_typed, signal_branches] * 4
+        forced = [n_way_gate, signal_branches, explicit_typed, mapped_typed, signal_branches, tuple_typed] * 4
         while True:
             i += 1
             if i % 4 == 0:
@@ -466,7 +504,7 @@ class C19(Prop):
                 continue
             r = rng.random()
             if forced or r < 0.09:
-                fam = forced.pop() if forced else rng.choice([n_way_gate, signal_branches, signal_branches, explicit_typed, mapped_typed])
+                fam = forced.pop() if forced else rng.choice([n_way_gate, signal_branches, signal_branches, explicit_typed, mapped_typed, tuple_typed])
                 valid, flawed, flaw = fam(rng)
                 if rng.random() < 0.3 and fam is not mapped_typed:
                     # the same inside a nested graph
@@ -497,7 +535,7 @@ class C19(Prop):
             order = rng.sample(FLAWS, len(FLAWS))
             if rng.random() < 0.6:
                 # flaw classes that need a particular structure are tried first (the generic ones apply almost everywhere)
-                rare = ["bad_graph_output_name", "inconsistent_default_fed", "dup_output_in_node", "dup_producer_two_gates", "dup_producer_two_names", "inconsistent_default", "type_mismatch", "missing_annotation",
+                rare = ["bad_graph_node_name", "bad_graph_output_name", "inconsistent_default_fed", "dup_output_in_node", "dup_producer_two_gates", "dup_producer_two_names", "inconsistent_default", "type_mismatch", "missing_annotation",
                         "unknown_target_multi", "edge_unknown_node", "edge_unknown_value", "dup_producer", "gate_self_target", "unknown_target"]
                 rng.shuffle(rare)
                 order = rare + [f for f in order if f not in rare]
@@ -535,7 +573,43 @@ class C19(Prop):
                 top = [tu.is_type_compatible(a, tu.Any) for a in rows]
             return {"m": m, "refl": refl, "top": top}
         late = bool(case.get("late"))
-        return {"valid": self._construct(case["program"], late), "flawed": self._construct(case["flawed"], late) if case["flawed"] is not None else None}
+        out = {"valid": self._construct(case["program"], late), "flawed": self._construct(case["flawed"], late) if case["flawed"] is not None else None}
+        if out["flawed"] == "ok" and str(case.get("flaw", "")).startswith("dup_producer"):
+            out["both_ran"] = self._both_producers_run(case["flawed"], case["gi"])
+        return out
+
+    @staticmethod
+    def _both_producers_run(program: list[dict], gi: int) -> Any:
+        """An ACCEPTED graph with two producers of one name: is it a mistake?  Semantically: some input valuation makes both of them run in
+        one run (searched over small values of the graph's inputs).  Returns the witness [valuation, name, producers] or None."""
+        import warnings
+
+        from hypergraph import SyncRunner
+
+        prods: dict[str, list[str]] = {}
+        for n in program[gi]["nodes"]:
+            for o in n.get("dataOuts", []):
+                prods.setdefault(o, []).append(n["name"])
+        dups = {o: ns for o, ns in prods.items() if len(ns) > 1}
+        if not dups or gi != len(program) - 1:
+            return None
+        rng = random.Random(canonical_hash(program))
+        for _ in range(60):
+            env = Env()
+            try:
+                g = build.build_program(program, env)[-1]
+                vals = {k: rng.randint(0, 4) for k in list(g.inputs.required) + list(g.inputs.optional)}
+                with warnings.catch_warnings():
+                    warnings.simplefilter("ignore")
+                    SyncRunner().run(g, vals, error_handling="continue", max_iterations=30)
+            except Exception:  # noqa: BLE001
+                continue
+            ran = {f.split(":", 1)[1] for f, _ in env.log if f.startswith(f"{gi}:")}
+            for o, ns in dups.items():
+                hit = [n for n in ns if n in ran]
+                if len(hit) > 1 and not any(_reaches(program[gi]["nodes"], a, b) for a in hit for b in hit if a != b):
+                    return [sorted(vals.items()), o, hit]
+        return None
 
     def oracle(self, case: dict, obs: Any) -> str | None:
         if case["kind"] == "types":
@@ -574,6 +648,13 @@ class C19(Prop):
             return f"a valid generated graph was rejected at construction: {obs['valid']}"
         if case["flawed"] is not None:
             if obs["flawed"] == "ok":
+                if str(case["flaw"]).startswith("dup_producer"):
+                    # whether two un-ordered producers can both run is decided semantically: a run in which both of them executed
+                    w = obs.get("both_ran")
+                    if w is None:
+                        return None
+                    return (f"graph with the structural mistake {case['flaw']!r} was accepted by the constructor: with inputs {w[0]} the producers {w[2]} of "
+                            f"{w[1]!r} all ran in one run")
                 return f"graph with the structural mistake {case['flaw']!r} was accepted by the constructor"
             if obs["flawed"] != "GraphConfigError":
                 return f"structural mistake {case['flaw']!r} was rejected with {obs['flawed']} instead of a configuration error"
